@@ -19,7 +19,7 @@ TIMEOUT = {'quick': 1500, 'thorough': 7200}
 MUST_HIT = ['EarlierObject.rechecked', 'Mapping.whole-model', 'Mapping.component', 'Mapping.derived-attributes', 'Mapping.after-edit',
             'Mapping.simple', 'Mapping.linked', 'Mapping.subsuper', 'Mapping.reflexive', 'Schema.roundtrip',
             'Mapping.real-model-edit', 'Mapping.unsupported-attribute-type', 'Mapping.identifier-of-derived-attribute',
-            'Mapping.subtypes-on-compound-identifier']
+            'Mapping.subtypes-on-compound-identifier', 'Mapping.relationship-number-used-twice']
 MUST_REACH = ['bridgepoint/ooaofooa.py:mk_class', 'bridgepoint/ooaofooa.py:mk_simple_association',
               'bridgepoint/ooaofooa.py:mk_linked_association', 'bridgepoint/ooaofooa.py:mk_subsuper_association',
               'bridgepoint/ooaofooa.py:_get_related_attributes', 'bridgepoint/ooaofooa.py:_get_data_type_name',
@@ -94,13 +94,32 @@ def random_diagram(rng, derived_keys=False, extras=False):
         # inside a component nested in the component under test (takes part in no relationship)
         d.classes.append(bp.Cls('Deep inside', 'KN', 98, [bp.Attr('Id', 'unique_id'), bp.Attr('m', 'string')],
                                 [['Id']], where=rng.choice(('nested', 'deep', 'direct', 'direct-nested'))))
-    numb = 0
+    counter = 0
     for _ in range(rng.randint(1, 5)):
-        numb += rng.randint(1, 3)
+        counter += rng.randint(1, 3)
+        numb = counter
         kind = rng.choice(('simple', 'simple', 'linked', 'subsuper'))
+        avoid = set()
+        if d.rels and rng.random() < 0.2:
+            # relationship numbers are unique within one class diagram only: a number is used a second time, between
+            # other classes (the names of the referential attributes carry a mark so that they stay distinct)
+            again = rng.choice(d.rels)
+            if isinstance(again, bp.Simple):
+                avoid = set((again.form.kl, again.part.kl))
+            elif isinstance(again, bp.Linked):
+                avoid = set((again.one.kl, again.other.kl, again.link_kl))
+            else:
+                avoid = set([again.super_kl] + [k for k, _ in again.subs])
+            avoid |= set(kl for r in d.rels if r.numb == again.numb and r is not again
+                         for kl in ([r.form.kl, r.part.kl] if isinstance(r, bp.Simple) else
+                                    [r.one.kl, r.other.kl, r.link_kl] if isinstance(r, bp.Linked) else
+                                    [r.super_kl] + [k for k, _ in r.subs]))
+            numb = again.numb
+            STATS['relationship-number-used-twice-tried'] = STATS.get('relationship-number-used-twice-tried', 0) + 1
 
         def pick(where=None):
-            cs = [c for c in d.classes if c.where not in bp.ISOLATED and (where is None or c.where == where)]
+            cs = [c for c in d.classes if c.where not in bp.ISOLATED and (where is None or c.where == where)
+                  and c.kl not in avoid]
             return rng.choice(cs) if cs else None
 
         def ends():
@@ -112,7 +131,9 @@ def random_diagram(rng, derived_keys=False, extras=False):
             return (m1, c1, 'ph%da' % numb), (m2, c2, 'ph%db' % numb)
         if kind == 'simple':
             form = pick()
-            part = pick(form.where if form.where == 'comp' else None)
+            part = pick(form.where if form.where == 'comp' else None) if form is not None else None
+            if form is None or part is None:
+                continue
             where = 'comp' if form.where == 'comp' and part.where == 'comp' else 'pkg'
             if where == 'pkg' and (form.where == 'comp') != (part.where == 'comp') and False:
                 continue
@@ -129,7 +150,10 @@ def random_diagram(rng, derived_keys=False, extras=False):
             if len(d.classes) < 2:
                 continue
             link = pick()
-            others = [c for c in d.classes if c is not link and c.where not in bp.ISOLATED and (link.where != 'comp' or c.where == 'comp')]
+            if link is None:
+                continue
+            others = [c for c in d.classes if c is not link and c.where not in bp.ISOLATED and (link.where != 'comp' or c.where == 'comp')
+                      and c.kl not in avoid]
             if not others:
                 continue
             one, other = rng.choice(others), rng.choice(others)
@@ -144,8 +168,10 @@ def random_diagram(rng, derived_keys=False, extras=False):
             if len(d.classes) < 3:
                 continue
             sup = pick()
-            subs = [c for c in d.classes if c is not sup and (c.where == sup.where or sup.where == 'pkg' and False)]
-            subs = [c for c in d.classes if c is not sup and c.where == sup.where and c.where not in bp.ISOLATED]
+            if sup is None:
+                continue
+            subs = [c for c in d.classes if c is not sup and c.where == sup.where and c.where not in bp.ISOLATED
+                    and c.kl not in avoid]
             if not subs:
                 continue
             chosen = rng.sample(subs, min(len(subs), rng.randint(1, 2)))
@@ -167,6 +193,8 @@ def random_diagram(rng, derived_keys=False, extras=False):
                 # the referential attribute may itself be referred to (chains of referentials)
                 s.identifiers.append([an for an, _ in pairs])
             d.rels.append(bp.SubSuper(numb, sup.kl, sub_list, sup.where, key_n))
+    if len(set(r.numb for r in d.rels)) < len(d.rels):
+        STATS['relationship-number-used-twice'] = STATS.get('relationship-number-used-twice', 0) + 1
     if extras:
         # what component extraction must leave out: attributes of data types that are no core type
         # (the state attribute, instance references, void), and - unless derived attributes are asked
